@@ -14,14 +14,14 @@ package main
 
 import (
 	"encoding/json"
-	"os"
-	"sort"
 	"fmt"
 	"go/ast"
 	"go/token"
+	"os"
 	"reflect"
 	"regexp"
 	"regexp/syntax"
+	"sort"
 	"strconv"
 	"strings"
 	"unicode"
